@@ -374,6 +374,27 @@ theorem every_selected_route_has_receiver (re : String → String → Bool) (nam
     have hmem := nodes_receiver_mem names (.mk n kids) defaultOpts none 0 hd (Or.inr hr) x hn
     exact ⟨hmem, fun he => hnames (he ▸ hmem)⟩
 
+/-! ### the three consumers
+
+  `api/v2/api.go` (`Update` + `getAlertsHandler`), `cli/test_routing.go`
+  (`routingTestAction` + `resolveAlertReceivers`) and the dispatcher
+  (`app/reloader.go` + `Dispatcher.routeAlert`/`Groups`) each build the tree with
+  `dispatch.NewRoute(cfg.Route, nil)` and ask it `Match(labels)`, reading the
+  receiver from `RouteOpts.Receiver`.  The Go engine pins those call sites (go/ast);
+  here they are therefore one and the same function. -/
+
+def apiReceivers (re : String → String → Bool) (cr : CRoute) (ls : LabelSet) : List String :=
+  («match» re (mkTree cr) ls).map (·.opts.receiver)
+def amtoolReceivers (re : String → String → Bool) (cr : CRoute) (ls : LabelSet) : List String :=
+  («match» re (mkTree cr) ls).map (·.opts.receiver)
+def dispatcherRoutes (re : String → String → Bool) (cr : CRoute) (ls : LabelSet) : List Route :=
+  «match» re (mkTree cr) ls
+
+/-- **three_consumers_agree** (modulo the pinned call sites). -/
+theorem three_consumers_agree (re : String → String → Bool) (cr : CRoute) (ls : LabelSet) :
+    apiReceivers re cr ls = amtoolReceivers re cr ls ∧
+    apiReceivers re cr ls = (dispatcherRoutes re cr ls).map (·.opts.receiver) := ⟨rfl, rfl⟩
+
 /-! ### non-vacuity -/
 
 /-- a two-level tree: the child groups by `[]` explicitly, has `continue`, and a sibling follows -/
